@@ -49,7 +49,7 @@ theorem C14_flush_error_rolls_back (sch : Schema) (w : World) (h : WInv sch w) (
 /-- nothing but a successful `commit()` (and the second writer) changes what other connections see: not a flush, not a
     failing flush, not a query, not a rollback -/
 theorem C14_only_commit_publishes (sch : Schema) (w : World) (h : WInv sch w) (op : WOp)
-    (hc : ∀ ids, op ≠ .commit ids) (he : ∀ r, op ≠ .ext r) : (stepW sch w op).1.committed = w.committed :=
+    (hc : ∀ ids, op ≠ .commit ids) (he : ∀ st, op ≠ .ext st) : (stepW sch w op).1.committed = w.committed :=
   stepW_committed h op hc he
 
 def sessionOnly : WOp → Bool
@@ -161,11 +161,33 @@ theorem C14_conflict_at_flush_insert (sch : Schema) (w : World) (o : ObjId) (ids
 theorem C14_conflict_at_flush_update (sch : Schema) (w : World) (o : ObjId) (ids : List Int) (k : KeyVal) (old : DbRow)
     (hst : (w.sess.obj o).status = .modified) (hpk : (w.sess.obj o).pk = some k)
     (hw : (List.range sch.nattrs).any (w.sess.obj o).wbits = true) (hold : getRow w.txn k = some old)
+    (hopt : (!w.forUpdate.contains o && !optimisticOk sch (w.sess.obj o) old) = false)
     (hu : dbUpdate sch w.txn (updRow (w.sess.obj o) old) = none) :
     (flushObj sch w o ids).err = some .integrity ∧ (flushObj sch w o ids).w.txn = w.txn ∧
       (flushObj sch w o ids).w.sess = w.sess ∧ (flushObj sch w o ids).w.committed = w.committed := by
   unfold flushObj
-  simp only [hst, hpk, hw, hold, hu, if_true]
+  simp only [hst, hpk, hw, hold, hu, hopt, if_true, Bool.false_eq_true, if_false]
+  exact ⟨trivial, trivial, trivial, trivial⟩
+
+/-- a row the session had READ was changed by another connection meanwhile: the UPDATE matches no row ⇒ OptimisticCheckError;
+    table and session unchanged (the stale value is never written over the other writer's) -/
+theorem C14_conflict_at_flush_optimistic (sch : Schema) (w : World) (o : ObjId) (ids : List Int) (k : KeyVal) (old : DbRow)
+    (hst : (w.sess.obj o).status = .modified) (hpk : (w.sess.obj o).pk = some k)
+    (hw : (List.range sch.nattrs).any (w.sess.obj o).wbits = true) (hold : getRow w.txn k = some old)
+    (hfu : w.forUpdate.contains o = false) (a : Nat) (ha : a < sch.nattrs) (hr : (w.sess.obj o).rbits a = true)
+    (hch : ((w.sess.obj o).dbvals a).key ≠ old.vals a) :
+    (flushObj sch w o ids).err = some .optimistic ∧ (flushObj sch w o ids).w.txn = w.txn ∧
+      (flushObj sch w o ids).w.sess = w.sess ∧ (flushObj sch w o ids).w.committed = w.committed := by
+  have hopt : (!w.forUpdate.contains o && !optimisticOk sch (w.sess.obj o) old) = true := by
+    have : optimisticOk sch (w.sess.obj o) old = false := by
+      unfold optimisticOk
+      rw [Bool.eq_false_iff]
+      intro hall
+      have := List.all_eq_true.mp hall a (List.mem_range.mpr ha)
+      simp [hr, hch] at this
+    rw [hfu, this]; rfl
+  unfold flushObj
+  simp only [hst, hpk, hw, hold, hopt, if_true]
   exact ⟨trivial, trivial, trivial, trivial⟩
 
 /-- a flush that meets a refused statement reports it: `flush` returns the error of the first refused statement (it is not
@@ -221,6 +243,40 @@ theorem C14_commit_loses_no_insert (sch : Schema) (w : World) (ids : List Int) (
       simp only [hg]
       exact flushGo_inserts w.sess.queue hnd w ids false hI hq w' sv hg o ho hst
 
+/-- NO UPDATE IS LOST: after a `commit()` that returned normally, the row of every queued modified object is the row the
+    session's connection saw before with the written columns replaced by the session's values — whatever else the flush wrote -/
+theorem C14_commit_loses_no_update (sch : Schema) (w : World) (ids : List Int) (hI : Inv sch w.sess)
+    (hnd : w.sess.queue.Nodup) (hq : ∀ o, o ∈ w.sess.queue → o < w.sess.n) (hm : w.modified = true) (hp : w.pendingSaved = false)
+    (hc : (stepW sch w (.commit ids)).2 = none) (o : ObjId) (ho : o ∈ w.sess.queue) (k : KeyVal)
+    (hst : (w.sess.obj o).status = .modified) (hpk : (w.sess.obj o).pk = some k)
+    (hw : (List.range sch.nattrs).any (w.sess.obj o).wbits = true) :
+    ∃ old, getRow w.txn k = some old ∧ getRow (stepW sch w (.commit ids)).1.committed k = some (updRow (w.sess.obj o) old) := by
+  obtain ⟨w', sv, hg, hcm⟩ := commit_ok_flushGo hm hp hc
+  rw [hcm]
+  exact (flushGo_updates_deletes w.sess.queue hnd w ids false hI hq w' sv hg o ho k hpk).1 hst hw
+
+/-- NO DELETE COMES BACK: the row of every queued deleted object is gone from the committed table (provided the database
+    does not hand out the deleted row's key as a fresh id in the same flush) -/
+theorem C14_commit_delete_stays_gone (sch : Schema) (w : World) (ids : List Int) (hI : Inv sch w.sess)
+    (hnd : w.sess.queue.Nodup) (hq : ∀ o, o ∈ w.sess.queue → o < w.sess.n) (hm : w.modified = true) (hp : w.pendingSaved = false)
+    (hc : (stepW sch w (.commit ids)).2 = none) (o : ObjId) (ho : o ∈ w.sess.queue) (k : KeyVal)
+    (hst : (w.sess.obj o).status = .markedToDelete) (hpk : (w.sess.obj o).pk = some k) (hid : ∀ i, i ∈ ids → k ≠ [i]) :
+    getRow (stepW sch w (.commit ids)).1.committed k = none := by
+  obtain ⟨w', sv, hg, hcm⟩ := commit_ok_flushGo hm hp hc
+  rw [hcm]
+  exact (flushGo_updates_deletes w.sess.queue hnd w ids false hI hq w' sv hg o ho k hpk).2 hst hid
+
+/-- … AND NOTHING ELSE (the converse): a primary key that no queued object holds and that is not a generated id finds in the
+    committed table exactly the row the session's connection saw before the commit — the flush wrote no other row -/
+theorem C14_commit_touches_only_queue (sch : Schema) (w : World) (ids : List Int) (hI : Inv sch w.sess)
+    (hnd : w.sess.queue.Nodup) (hm : w.modified = true) (hp : w.pendingSaved = false)
+    (hc : (stepW sch w (.commit ids)).2 = none) (k : KeyVal)
+    (hk : ∀ p, p ∈ w.sess.queue → (w.sess.obj p).pk ≠ some k) (hid : ∀ i, i ∈ ids → k ≠ [i]) :
+    getRow (stepW sch w (.commit ids)).1.committed k = getRow w.txn k := by
+  obtain ⟨w', sv, hg, hcm⟩ := commit_ok_flushGo hm hp hc
+  rw [hcm]
+  exact flushGo_other_rows w.sess.queue w ids false hI w' sv hg k hk hid hnd
+
 /-! ### the statements are not vacuous -/
 
 /-- `E(id, u unique, a, b; composite_key(a, b))` -/
@@ -247,9 +303,9 @@ example : (stepW exSchema (runW exSchema World.init (swapOps.take 6)) (.sess (.s
 /-- a second connection inserts a conflicting row between the session's look and its flush: the flush is refused, commit
     rolls back, the other writer's row stays -/
 example : (stepW exSchema (runW exSchema World.init
-      [.fetch 0 [5] [], .sess (.create 0 (some [5]) [some 7, none, none] false), .ext (row 6 (some 7) none none)]) (.commit [])).2 = some .txnIntegrity ∧
+      [.fetch 0 [5] [], .sess (.create 0 (some [5]) [some 7, none, none] false), .ext (.insert (row 6 (some 7) none none))]) (.commit [])).2 = some .txnIntegrity ∧
     ((stepW exSchema (runW exSchema World.init
-      [.fetch 0 [5] [], .sess (.create 0 (some [5]) [some 7, none, none] false), .ext (row 6 (some 7) none none)]) (.commit [])).1.committed.map (·.pk)) = [[6]] := by
+      [.fetch 0 [5] [], .sess (.create 0 (some [5]) [some 7, none, none] false), .ext (.insert (row 6 (some 7) none none))]) (.commit [])).1.committed.map (·.pk)) = [[6]] := by
   decide
 
 /-- optional keys: any number of rows may hold None; deleting an object and re-creating its key in the same session commits -/
@@ -263,13 +319,13 @@ example : (runW exSchema World.init
     the later flush-time conflict (a new object with a unique value an unloaded row holds) rolls everything back: the
     committed table still has both rows -/
 example : ((stepW exSchema (runW exSchema World.init
-      [.ext (row 1 (some 10) none none), .ext (row 2 (some 20) none none),
+      [.ext (.insert (row 1 (some 10) none none)), .ext (.insert (row 2 (some 20) none none)),
        .fetch 0 [1] [], .sess (.delete 0), .flushOne 0 [], .sess (.create 0 (some [3]) [some 20, none, none] false)]) (.commit [])).2 = some .txnIntegrity) ∧
     ((stepW exSchema (runW exSchema World.init
-      [.ext (row 1 (some 10) none none), .ext (row 2 (some 20) none none),
+      [.ext (.insert (row 1 (some 10) none none)), .ext (.insert (row 2 (some 20) none none)),
        .fetch 0 [1] [], .sess (.delete 0), .flushOne 0 [], .sess (.create 0 (some [3]) [some 20, none, none] false)]) (.commit [])).1.committed.map (·.pk)) = [[1], [2]] ∧
     (runW exSchema World.init
-      [.ext (row 1 (some 10) none none), .ext (row 2 (some 20) none none),
+      [.ext (.insert (row 1 (some 10) none none)), .ext (.insert (row 2 (some 20) none none)),
        .fetch 0 [1] [], .sess (.delete 0), .flushOne 0 []]).inTxn = true := by
   decide
 
@@ -277,6 +333,16 @@ example : ((stepW exSchema (runW exSchema World.init
 example : (runW exSchema World.init [.sess (.create 0 none [some 1, none, none] false), .sess (.create 0 (some [7]) [some 2, none, none] false)]).sess.queue = [0, 1] ∧
     (stepW exSchema (runW exSchema World.init [.sess (.create 0 none [some 1, none, none] false), .sess (.create 0 (some [7]) [some 2, none, none] false)]) (.commit [3])).2 = none ∧
     ((stepW exSchema (runW exSchema World.init [.sess (.create 0 none [some 1, none, none] false), .sess (.create 0 (some [7]) [some 2, none, none] false)]) (.commit [3])).1.committed.map fun r => (r.pk, r.vals 0)) = [([3], some 1), ([7], some 2)] := by
+  decide
+
+/-- update + delete + an untouched row in one commit: row 1 gets the new unique value, row 2 is gone, row 3 is what it was -/
+example : ((stepW exSchema (runW exSchema World.init
+      [.ext (.insert (row 1 (some 10) none none)), .ext (.insert (row 2 (some 20) none none)), .ext (.insert (row 3 (some 30) (some 1) none)),
+       .fetch 0 [1] [], .fetch 0 [2] [], .sess (.setAttrs 0 [(0, some 11)]), .sess (.delete 1)]) (.commit [])).2 = none) ∧
+    ((stepW exSchema (runW exSchema World.init
+      [.ext (.insert (row 1 (some 10) none none)), .ext (.insert (row 2 (some 20) none none)), .ext (.insert (row 3 (some 30) (some 1) none)),
+       .fetch 0 [1] [], .fetch 0 [2] [], .sess (.setAttrs 0 [(0, some 11)]), .sess (.delete 1)]) (.commit [])).1.committed.map
+        fun r => (r.pk, r.vals 0, r.vals 1)) = [([1], some 11, none), ([3], some 30, some 1)] := by
   decide
 
 /-- the auto-id branch: the database generates id 1 while an object with explicit id 1 is pending ⇒ error, rollback -/
